@@ -21,8 +21,8 @@ P6 == [src |-> "short", cfg |-> "nest_map"]            \* a config holding an EM
 StepEnvs == {Env(TRUE, <<>>), Env(FALSE, <<>>), Env(FALSE, ("A" :> "1")), Env(FALSE, ("A" :> "1") @@ ("C" :> "3"))}
 PluginLists == {Plug(TRUE, <<>>), Plug(FALSE, <<>>), Plug(FALSE, <<P1>>), Plug(FALSE, <<P1, P2>>), Plug(FALSE, <<P3>>),
                 Plug(FALSE, <<P4>>), Plug(FALSE, <<P4, P5>>), Plug(FALSE, <<P6>>)}
-Matrices == {"nil", "empty", "list_ab", "adj_base", "setup_os", "adj_tomb_v", "shadow_a", "dims_empty", "dims_mixed_a"}       \* setup_os: exactly one NAMED dimension
-PEnvs == {<<>>, ("A" :> "pa"), ("A" :> "pa") @@ ("B" :> "pb"), ("B" :> "") }
+Matrices == {"nil", "empty", "list_ab", "adj_base", "setup_os", "adj_tomb_v", "shadow_a", "dims_empty", "dims_mixed_a", "skiponly_t"}       \* setup_os: exactly one NAMED dimension
+PEnvs == {<<>>, ("A" :> "pa"), ("A" :> "pa") @@ ("B" :> "pb"), ("B" :> ""), ("A" :> "1") }     \* the last: the value a step's own A has
 Keys == {[pair |-> "K1", alg |-> "EdDSA"], [pair |-> "K1", alg |-> "ES512"], [pair |-> "K1", alg |-> "PS512"], [pair |-> "K1", alg |-> "ES256"]}
 
 Kinds == { "none",
@@ -30,7 +30,7 @@ Kinds == { "none",
   "cmd", "cmd_crlf", "cmd_trailing_nl", "env_add", "env_remove", "env_change", "env_rename",
   "plug_add", "plug_remove", "plug_reorder", "plug_source", "plug_config", "plug_config_deep", "plug_config_scalar", "plug_null_vs_nonempty", "plug_config_nested_null", "plug_config_nested_list", "plug_config_nested_el",
   "repo_slash", "repo_dotgit", "repo_case",
-  "matrix_add", "matrix_remove", "matrix_setup_value", "matrix_adj_with", "matrix_adj_skip", "matrix_adj_extra", "matrix_dim_rename", "matrix_dim_value", "matrix_dim_anon", "matrix_adj_extra_last", "matrix_shadowed_setup", "matrix_empty_dim_rename", "matrix_mixed_dim_value",
+  "matrix_add", "matrix_remove", "matrix_setup_value", "matrix_adj_with", "matrix_adj_skip", "matrix_adj_extra", "matrix_dim_rename", "matrix_dim_value", "matrix_dim_anon", "matrix_adj_extra_last", "matrix_shadowed_setup", "matrix_empty_dim_rename", "matrix_mixed_dim_value", "matrix_skiponly_flip", "matrix_skiponly_reason", "matrix_skiponly_removed",
   "repo", "penv_value", "penv_removed", "penv_shadowed",
   \* semantic: record and key
   "rec_alg", "fields_drop_mandatory", "fields_drop_env", "fields_add_env", "fields_add_unknown", "fields_empty",
@@ -76,6 +76,9 @@ MutContent(o, kind) ==
       [] kind = "matrix_adj_extra_last" -> IF o.matrix = "adj_tomb_v" THEN [o EXCEPT !.matrix = "adj_tomb_w"] ELSE NA   \* the last pair of an edited ordered map deep inside an adjustment
       [] kind = "matrix_shadowed_setup" -> IF o.matrix = "shadow_a" THEN [o EXCEPT !.matrix = "shadow_b"] ELSE NA     \* the real setup changes; a leftover key named `setup` stays the same
       [] kind = "matrix_empty_dim_rename" -> IF o.matrix = "dims_empty" THEN [o EXCEPT !.matrix = "dims_empty2"] ELSE NA        \* dimensions without values are content too
+      [] kind = "matrix_skiponly_flip" -> IF o.matrix = "skiponly_t" THEN [o EXCEPT !.matrix = "skiponly_f"] ELSE NA     \* a matrix that is nothing but a skip marker is still signed content
+      [] kind = "matrix_skiponly_reason" -> IF o.matrix = "skiponly_t" THEN [o EXCEPT !.matrix = "skiponly_s"] ELSE NA
+      [] kind = "matrix_skiponly_removed" -> IF o.matrix = "skiponly_t" THEN [o EXCEPT !.matrix = "nil"] ELSE NA
       [] kind = "matrix_mixed_dim_value" -> IF o.matrix = "dims_mixed_a" THEN [o EXCEPT !.matrix = "dims_mixed_b"] ELSE NA
       [] kind = "repo" -> [o EXCEPT !.repo = "https://example.com/other.git"]
       [] kind = "penv_shadowed" -> IF "B" \notin DOMAIN o.env.m THEN [o EXCEPT !.env = Env(FALSE, ("B" :> "pb") @@ o.env.m)] ELSE NA
